@@ -353,7 +353,20 @@ pub async fn run_benign(seed: u64, sched: Rc<Sched>, keep_log: bool) -> (CaseRes
     let _ = d.drive(|| ha.is_finished() && hb.is_finished(), |_| {}).await;
     d.drain().await;
     if sched.live() != 0 && hist.lock().unwrap().violations.is_empty() {
-        harness_error.get_or_insert("tasks alive at the end".to_string());
+        // The writers have been released (and shut down where the script says so), the transport
+        // only fragments and delays, nothing is runnable and time does not help: a reader or
+        // writer of the session is parked for ever although its data is there - a lost wake-up.
+        // (On the unchanged tree this has never occurred; it used to be reported as a harness
+        // error, which hid seeded change C13-8.)
+        let (a, b) = (st_ab.lock().unwrap(), st_ba.lock().unwrap());
+        hist.violation(
+            "C13",
+            "session_task_parked_for_ever",
+            format!(
+                "{} task(s) of the session never finish on a benign transport: a->b accepted {} flushed {} delivered {} eof {}; b->a accepted {} flushed {} delivered {} eof {}",
+                sched.live(), a.accepted, a.flushed, a.received, a.reader_eof, b.accepted, b.flushed, b.received, b.reader_eof
+            ),
+        );
     }
     let total = st_ab.lock().unwrap().accepted + st_ba.lock().unwrap().accepted;
     let states = vec![kit::mix(ops_a.len() as u64, kit::mix(ops_b.len() as u64, total.min(1 << 20) >> 10))];
